@@ -4,6 +4,8 @@ model:    lean/CssVerif/Model/Struct.lean (K2: _tokensupto2, _parse, declaration
           unknown / style / media rule, sheet dispatcher)
 theorems: lean/CssVerif/Props/C04.lean
 tie:      (a) translator: MarginRule.margins -> Gen/C04Margins.lean
+          (c) truncated sheets: certificate + predicted rule list (driver `cut`, theorem truncation_certified) vs
+              the model's answer and the DOM; composed model text -> C05 tokenizer model -> sheet (driver `text`)
           (b) correspondence on token lists produced by the real tokenizer:
               _tokensupto2 (all 13 modes x start token), CSSUnknownRule.wellformed,
               CSSStyleDeclaration.cssText (the seq), parseString (cssRules projection).
@@ -325,7 +327,11 @@ class C04(Check):
         'selectors, property values, media query lists and the bodies of @charset/@import/@namespace/@page/'
         '@font-face/@variables/margin rules are opaque (an arbitrary oracle in every theorem); in the '
         'correspondence the oracle is the real sub-parser run on exactly the token lists the model shows',
-        'the tokenizer is not modelled here (C05): both sides start from the tokens of the real tokenizer',
+        'the tokenizer is not modelled here (C05): both sides start from the tokens of the real tokenizer; the '
+        'text-level theorems (T4.5) use the tokenizer model of C05, and the stream text-pipeline checks on a sample '
+        'that this model composed with the structure model reproduces the real tokens and the same rule tree',
+        'truncation certificates are found by an unverified greedy search (findCut) and judged by the verified '
+        'check Cut.ok; the predicted rule list is compared with the model and with the DOM on every truncated sheet',
     )
     assumptions = ('token lists have EOF only as last token and single-character CHAR tokens (tokenizer invariant, '
                    'checked by the driver on every request)',)
@@ -333,7 +339,7 @@ class C04(Check):
             '@variables / unknown at-rules / comments, random spelling: white space, comments, case of at-keywords, '
             'escapes) x injection point at every statement and declaration boundary x garbage from a balanced-token '
             'grammar that the implementation itself does not accept as a construct; all token-boundary prefixes of '
-            'grammar sheets; a malformed stream (token deletion/duplication/bracket injection, truncation); direct '
+            'grammar sheets and of chains of 3-6 nested @media rules (kinds cut:<shape of what is open at the cut>); a malformed stream (token deletion/duplication/bracket injection, truncation); direct '
             'calls of _tokensupto2 in all 13 modes with and without start token. non-trivial = distinct input whose '
             'parse drops or closes something (damaged differs from original text, or truncated before the end)')
 
@@ -394,7 +400,7 @@ class C04(Check):
 
     def run_corpus(self, ctx):
         texts = [e['text'] for e in self.corpus(ctx)]
-        self.check_sheets(ctx, texts, 'corpus')
+        self.check_sheets(ctx, texts, 'corpus', cuts=True)
 
     # -- model on sheets ------------------------------------------------------------------------------
     def model_sheets(self, ctx, toklists):
@@ -434,7 +440,71 @@ class C04(Check):
             res[i] = 'oracle iteration did not converge'
         return list(zip(res, orcs))
 
-    def check_sheets(self, ctx, texts, kind, nontrivial=None):
+    def check_cuts(self, ctx, texts, toklists, models, reals, kind):
+        """the truncation theorems on real truncated sheets: the driver builds a certificate for the token list
+        (complete statements, the open @media rules with their complete units to any depth, the open style rule
+        with its complete declarations), checks every hypothesis (`Cut.ok`, proved sound) and answers with the
+        rule list theorem `truncation_certified` predicts; it must be the model's own answer (an instance of the
+        theorem) and, projected, the DOM of parseString"""
+        idx = [i for i, (tree, _) in enumerate(models) if isinstance(tree, dict)]
+        if not idx or not ctx.model_ok:
+            return
+        out = ctx.driver(['cut %s %s' % (enc_toks(toklists[i]), models[i][1].entries()) for i in idx])
+        for i, line in zip(idx, out):
+            tree, orc = models[i]
+            if not line.startswith('{'):
+                ctx.disagree('cut/' + kind, {'text': texts[i]}, 'a certificate or ok=false', line)
+                continue
+            pred = json.loads(line)
+            shape = pred.get('shape', '?')
+            ctx.case(key=('cut', texts[i]), nontrivial=bool(pred['ok']) and shape != 'end',
+                     kind='cut:%s%s' % ('' if pred['ok'] else 'uncovered:', shape),
+                     sample={'text': texts[i][-120:], 'shape': shape})
+            if not pred['ok']:
+                continue
+            if pred['rules'] != tree['rules']:
+                ctx.disagree('cut/theorem-instance/' + kind, {'text': texts[i]}, tree['rules'], pred['rules'])
+                continue
+            try:
+                mp = strip_proj(proj_rules_model(pred['rules'], toklists[i], orc))
+            except KeyError as e:
+                mp = 'prediction asks a query the model did not show: %s' % e
+            if mp != strip_proj(reals[i]):
+                ctx.disagree('cut/prediction/' + kind, {'text': texts[i], 'shape': shape}, strip_proj(reals[i]), mp)
+
+    def check_text_pipeline(self, ctx, texts, toklists, models, kind, limit):
+        """T4.5: the composed model (tokenizer model of C05, then the structure model) on the TEXT must give
+        exactly what the structure model gives on the real tokenizer's tokens (same rules, same token keys)"""
+        idx = [i for i, (tree, _) in enumerate(models) if isinstance(tree, dict)]
+        if limit is not None and len(idx) > limit:
+            # first the texts whose last token was completed by the tokenizer (open string / comment / url( ),
+            # then an even sample of the rest
+            def completed(i):
+                t = toklists[i]
+                return len(t) >= 2 and t[-2][0] in ('STRING', 'COMMENT', 'URI') and not texts[i].endswith(t[-2][1])
+            first = [i for i in idx if completed(i)][:limit // 2]
+            rest = [i for i in idx if i not in set(first)]
+            k = limit - len(first)
+            step = len(rest) / float(k)
+            idx = sorted(first + [rest[int(j * step)] for j in range(k)] if rest else first)
+        if not idx or not ctx.model_ok:
+            return
+        out = ctx.driver(['text %s %s' % (enc(texts[i]), models[i][1].entries()) for i in idx])
+        for i, line in zip(idx, out):
+            tree = models[i][0]
+            ctx.case(key=('text', texts[i]), nontrivial=True, kind='text-pipeline:' + kind,
+                     sample={'text': texts[i][-120:]})
+            if not line.startswith('{'):
+                ctx.disagree('text-pipeline/' + kind, {'text': texts[i]}, tree, line)
+                continue
+            got = json.loads(line)
+            mtoks = got.pop('toks')
+            rtoks = ','.join('%s:%s' % ('OTHER' if t[0] in OTHER_TYPES else t[0], enc(t[1])) for t in toklists[i])
+            if mtoks != rtoks or got != tree:
+                ctx.disagree('text-pipeline/' + kind, {'text': texts[i]}, {'toks': rtoks, 'tree': tree},
+                             {'toks': mtoks, 'tree': got})
+
+    def check_sheets(self, ctx, texts, kind, nontrivial=None, cuts=False):
         """correspondence parseString vs model on texts; returns the real projections"""
         toklists = [tokenize(t) for t in texts]
         models = self.model_sheets(ctx, toklists)
@@ -453,6 +523,9 @@ class C04(Check):
             mp = proj_rules_model(tree['rules'], toks, orc)
             if strip_proj(mp) != strip_proj(real):
                 ctx.disagree('parseString/' + kind, {'text': text}, strip_proj(real), strip_proj(mp))
+        if cuts:
+            self.check_cuts(ctx, texts, toklists, models, reals, kind)
+            self.check_text_pipeline(ctx, texts, toklists, models, kind, ctx.n(12, 24))
         return reals
 
     # -- correspondence: _tokensupto2 directly ---------------------------------------------------------
@@ -541,15 +614,16 @@ class C04(Check):
 
     # -- truncation ---------------------------------------------------------------------------------------
     def corr_and_oracle_truncation(self, ctx, rng, sheets):
-        n_sheets = ctx.n(25, 300)
-        for sh in sheets[:n_sheets]:
+        n_sheets = ctx.n(25, 240)
+        deep = [G.gen_deep_sheet(rng) for _ in range(ctx.n(2, 16))]
+        for sh in sheets[:n_sheets] + deep:
             text, _ = sh.render()
             toks = tokenize(text)
             # cut at every token boundary (and a few inside tokens)
             offs = sorted(set(G.token_offsets(text, toks)) | {rng.randint(0, len(text)) for _ in range(4)})
             texts = [text[:o] for o in offs]
             nontriv = [o < len(text) for o in offs]
-            reals = self.check_sheets(ctx, texts, 'truncate', nontriv)
+            reals = self.check_sheets(ctx, texts, 'truncate', nontriv, cuts=True)
             full = parse_real(text)
             for o, t, real in zip(offs, texts, reals):
                 w = {'original': text, 'cut': o, 'truncated': t}
@@ -703,7 +777,7 @@ class C04(Check):
             reals = self.check_sheets(ctx, [w['original'], w['damaged']], 'replay')
             self.judge_injection(ctx, w['original'], w['offset'], w['where'], g, reals[0], reals[1])
         elif 'truncated' in w:
-            reals = self.check_sheets(ctx, [w['original'], w['truncated']], 'replay')
+            reals = self.check_sheets(ctx, [w['original'], w['truncated']], 'replay', cuts=True)
             full, real = reals
             if isinstance(real, tuple):
                 ctx.violate('parsing the truncated sheet raised', w, real)
@@ -718,7 +792,7 @@ class C04(Check):
                 if isinstance(inp, dict) and 'text' in inp:
                     texts.append(inp['text'])
             if texts:
-                self.check_sheets(ctx, texts, 'replay')
+                self.check_sheets(ctx, texts, 'replay', cuts=True)
             else:
                 self.run(ctx)
 
